@@ -24,9 +24,15 @@ func VerifAPIIsolation() {
 	d.Pegnet = p
 	d.Sync = &pegnet.BlockSync{Synced: 10}
 	node.AveragePeriod = 3
-	node.AverageRequired = 1
+	node.AverageRequired = 2
+	// pXBT is quoted in every block, or (sparse) only in the last one: then it has a spot rate but
+	// no rolling average (fewer samples than required)
+	sparse := vrt.Choose("xbtQuotedOnlyInTheLastBlock", 2) == 1
 	for h := 8; h <= 10; h++ {
 		for _, t := range []fat2.PTicker{fat2.PTickerUSD, fat2.PTickerXBT} {
+			if sparse && t == fat2.PTickerXBT && h < 10 {
+				continue
+			}
 			if _, err := db.Exec("INSERT INTO pn_rate (height, token, value) VALUES ($1, $2, $3)", h, t.String(), vrt.URange("rate", 1, 1<<40)); err != nil {
 				panic(err)
 			}
@@ -106,6 +112,21 @@ func VerifAPIIsolation() {
 	clean := d5.GetPegNetRateAverages(ctx, 10).(map[fat2.PTicker]uint64)
 	vrt.Assert("C18.abandoned-request-does-not-change-what-sync-computes",
 		afterReq[fat2.PTickerUSD] == clean[fat2.PTickerUSD] && afterReq[fat2.PTickerXBT] == clean[fat2.PTickerXBT])
+
+	// ---- (a'') answering rich-list requests leaves the averages sync will use as they are
+	d8 := new(node.Pegnetd)
+	d8.Pegnet = p
+	d8.Sync = &pegnet.BlockSync{Synced: 10}
+	s8 := &APIServer{Node: d8}
+	_ = s8.getGlobalRichList(ctx, nil)
+	_ = s8.getRichList(ctx, vrt.Blob(ParamsGetRichList{Asset: "pXBT", Count: 5}))
+	served := d8.GetPegNetRateAverages(ctx, 10).(map[fat2.PTicker]uint64)
+	d9 := new(node.Pegnetd)
+	d9.Pegnet = p
+	d9.Sync = &pegnet.BlockSync{Synced: 10}
+	quiet := d9.GetPegNetRateAverages(ctx, 10).(map[fat2.PTicker]uint64)
+	vrt.Assert("C18.served-requests-do-not-change-what-sync-computes",
+		served[fat2.PTickerUSD] == quiet[fat2.PTickerUSD] && served[fat2.PTickerXBT] == quiet[fat2.PTickerXBT])
 
 	// ---- (c) whatever the read API was asked, it leaves nothing behind that stops the sync loop:
 	// after any request - found or not found - the next block must still commit (in SQLite's
